@@ -13,13 +13,13 @@ func init() {
 	registerProperty(&PropertyInfo{
 		ID:    "C04",
 		Title: "A Reader is an immutable point-in-time view until it is closed",
-		Rules: []string{"C01.R3", "C04.R2", "C04.R3", "C04.R4", "C04.R5", "C04.R6", "C12.R3", "C11.R4"},
+		Rules: []string{"C01.R3", "C04.R2", "C04.R3", "C04.R4", "C04.R5", "C04.R6", "C04.R7", "C12.R3", "C11.R4"},
 		Decides: "nothing reachable from a published snapshot is written and what it references stays alive: no field/element of a Snapshot or segmentSnapshot is stored to unless the object is fresh and unpublished (C01.R3); every mutating roaring.Bitmap method in bluge is invoked on a bitmap created in the same function (or on a parameter for which every caller passes such a bitmap), so shared deleted sets are only ever combined copy-on-write; every root segment carried into a new root gets exactly one AddRef in the placing block while brand-new wrappers get none; the reader acquisition increments the snapshot's reference count on the value read from Writer.root while rootLock is held; no mapped byte is used after its unmap (C12.R3). a pooled postings iterator has every cursor field re-assigned before reuse; the bytes of an in-memory item are never rewritten after they may have been handed out.",
 		NotCovered: "equality of answers over time; immutability inside the segment library and inside roaring; release pairing of readers held by users.",
 	})
-	registerRule(&RuleInfo{ID: "C04.R2", Title: "bitmaps are mutated only when fresh (copy-on-write)", Floor: 7, Run: ruleC04R2,
+	registerRule(&RuleInfo{ID: "C04.R2", Title: "bitmaps are mutated only when fresh (copy-on-write)", Floor: 5, Run: ruleC04R2,
 		Covers: "every call of a mutating *roaring.Bitmap method in the repository"})
-	registerRule(&RuleInfo{ID: "C04.R3", Title: "one reference per carried segment, none for new wrappers", Floor: 5, Run: ruleC04R3,
+	registerRule(&RuleInfo{ID: "C04.R3", Title: "one reference per carried segment, none for new wrappers", Floor: 4, Run: ruleC04R3,
 		Covers: "every wrapper placed into the segment list of a snapshot that is handed to the root swap"})
 	registerRule(&RuleInfo{ID: "C04.R4", Title: "reader acquisition takes its reference under rootLock on the value read", Floor: 1, Run: ruleC04R4,
 		Covers: "path-sensitive lock-set in every function that reads Writer.root and returns it"})
